@@ -55,7 +55,7 @@ def marker_fn(val):
 
 def value_for(role, scope_val, dotted=0):
     """Object bound to the name in a scope."""
-    if role in ("arg", "bqarg", "kwarg", "nested", "dotarg"):
+    if role in ("arg", "bqarg", "kwarg", "nested", "dotarg", "offarg"):
         return scope_val
     fn = marker_fn(scope_val)
     if dotted == 3:
@@ -84,6 +84,8 @@ def run_config(cfg, keep=None):
         formula = f"y ~ 0 + fmc_probe(fmc_ident({name}))"
     elif role == "dotarg":
         formula = f"y ~ 0 + fmc_probe({name})"
+    elif role == "offarg":
+        formula = f"y ~ 0 + x + offset({name})"
     elif role == "bqarg":
         formula = f"y ~ 0 + fmc_probe(`{name}`)"
     else:
@@ -151,7 +153,7 @@ def read_column(M):
 
 def expected(cfg):
     role, subset, name = cfg["role"], cfg["subset"], cfg["name"]
-    order = ["data", "builtin", "local", "global", "extra"] if role in ("arg", "bqarg", "kwarg", "nested", "dotarg") else ["builtin", "local", "global", "extra"]
+    order = ["data", "builtin", "local", "global", "extra"] if role in ("arg", "bqarg", "kwarg", "nested", "dotarg", "offarg") else ["builtin", "local", "global", "extra"]
     defined = set(subset)
     if name in ("scale", "Sum"):
         defined.add("builtin")
@@ -180,6 +182,9 @@ def configs():
                 out.append({"role": "kwarg", "name": name, "k": k, "subset": sub})
                 if k in (0, 2):
                     out.append({"role": "nested", "name": name, "k": k, "subset": sub})
+        for sub in subsets:  # the argument of offset(): a scalar of the caller, or a column
+            if sub and "data" not in sub:  # (trained on a scalar of the caller; later frames may bring a column of that name)
+                out.append({"role": "offarg", "name": "wz", "k": k, "subset": sub})
         for sub in subsets:  # models with a dozen terms and more
             for pad in (10, 14):
                 out.append({"role": "arg", "name": "wz", "k": k, "subset": sub, "pad": pad})
@@ -295,7 +300,7 @@ def new_data_sequences(case, acc):
     """The same order decides every later evaluation of new data: frames with and without a column of that name, in both
     orders, each order on a design of its own.  Returns a list of problem strings."""
     problems = []
-    arglike = case["role"] in ("arg", "bqarg", "kwarg", "nested", "dotarg")
+    arglike = case["role"] in ("arg", "bqarg", "kwarg", "nested", "dotarg", "offarg")
     without = expected({**case, "subset": [s for s in case["subset"] if s != "data"]})
     for order in (("without", "with", "without"), ("with", "without", "with", "with")):
         keep = []
